@@ -83,6 +83,7 @@ type HarnessDef struct {
 	Thorough TierCfg           `json:"thorough"`
 	Covers   []string          `json:"covers"` // labels that must be reached (vacuity)
 	Stubs    map[string]string `json:"stubs,omitempty"`
+	Summaries map[string][]int `json:"summaries,omitempty"`
 	Noop     []string          `json:"noop,omitempty"`
 	NoReplay bool              `json:"no_replay,omitempty"`
 	Expect   string            `json:"expect,omitempty"` // "violation" for reachability twins
